@@ -279,8 +279,12 @@ def work_view(facts, body, methods=False):
         return _view_cache[k]
     from . import inline
     cg, eff_fns, interior = _cg(facts)
-    nb, inl = inline.inline_body(facts, body, lambda hb: hb.kind != "closure" and (
-        hb.q in eff_fns or (methods and body.self_adt and hb.self_adt == body.self_adt and hb.kind != "traitimpl")))
+    def takes_window(hb):
+        return any("circular_buffer::BufferWriter<" in hb.locals[i]["ty"] or "circular_buffer::BufferReader<" in hb.locals[i]["ty"]
+                   for i in range(1, min(hb.argc, len(hb.locals) - 1) + 1))
+
+    nb, inl = inline.inline_body(facts, body, lambda hb: hb.kind != "closure" and hb.file not in STREAM_FILES and (
+        hb.q in eff_fns or takes_window(hb) or (methods and body.self_adt and hb.self_adt == body.self_adt and hb.kind != "traitimpl")))
     if inl:
         _FACTS_FOR_VERDICTS[id(nb)] = facts
     _view_cache[k] = nb
@@ -371,3 +375,114 @@ def idle_again_paths(facts, body):
         if bb in r:
             out.append(bb)
     return out, eff
+
+
+# ---- judge on the work view when the body as compiled raises an alarm ------------------------------------------------
+class _Rec:
+    def __init__(self):
+        self.ev = []
+
+    def ok(self, *a, **k):
+        self.ev.append(("ok", a, k))
+
+    def bad(self, *a, **k):
+        self.ev.append(("bad", a, k))
+
+    def silent(self, *a, **k):
+        self.ev.append(("silent", a, k))
+
+
+class _FactsView:
+    """facts whose Block::work bodies are replaced by the given views (everything else delegated)"""
+
+    def __init__(self, facts, views):
+        self._f = facts
+        self._views = views
+
+    def __getattr__(self, name):
+        return getattr(self._f, name)
+
+    def impl_bodies(self, trait, method, raw=False):
+        if trait == "block::Block" and method == "work":
+            return list(self._views)
+        return self._f.impl_bodies(trait, method, raw)
+
+
+def _key_of_body(key, q):
+    return key == q or key.startswith(q + ":") or key.startswith(q + "|") or (":" + q + ":") in key or key.endswith(":" + q)
+
+
+def view_fallback(rule_fn):
+    """wrap a rule over Block::work bodies: bodies are judged as compiled; a body that raises an alarm is judged again on its
+    work view (helpers that move stream data / take a window / are methods of the block substituted in, value-sensitive
+    searches see across the former call boundary) and the view's verdict stands if it is clean.  Inlining preserves
+    behaviour, so an alarm that disappears on the view was an artefact of judging the pieces separately; an alarm that stays is
+    reported as before (same key)."""
+    def wrapped(facts, col, *a, **k):
+        rec = _Rec()
+        rule_fn(facts, rec, *a, **k)
+        badq = []
+        works = {b.q: b for b in facts.impl_bodies("block::Block", "work", raw=True) if not b.from_derive}
+        for kind, args, kw in rec.ev:
+            if kind == "bad" and len(args) >= 2:
+                for q in works:
+                    if _key_of_body(args[1], q):
+                        if q not in badq:
+                            badq.append(q)
+        replaced = {}
+        for q in badq:
+            vb = work_view(facts, works[q], methods=True)
+            if vb is works[q]:
+                continue
+            rec2 = _Rec()
+            try:
+                rule_fn(_FactsView(facts, [vb]), rec2, *a, **k)
+            except Exception:
+                continue
+            mine = [e for e in rec2.ev if len(e[1]) >= 2 and _key_of_body(e[1][1], q)]
+            if mine and not any(e[0] == "bad" for e in mine):
+                replaced[q] = mine
+        # bodies the rule said nothing about as compiled (its anchors may have moved into a helper): the view's instances count
+        def _mine(ev, q):
+            return [e for e in ev if len(e[1]) >= 2 and _key_of_body(e[1][1], q)]
+        quiet = [q for q in works if not [e for e in _mine(rec.ev, q) if e[0] != "silent"]]
+        extra = []
+        if quiet:
+            views = []
+            for q in quiet:
+                vb = work_view(facts, works[q], methods=True)
+                if vb is not works[q]:
+                    views.append((q, vb))
+            if views:
+                rec3 = _Rec()
+                try:
+                    rule_fn(_FactsView(facts, [vb for _, vb in views]), rec3, *a, **k)
+                    for q, vb in views:
+                        m_ = _mine(rec3.ev, q)
+                        # instances the view provides are taken only when they are clean: the rules use plain reachability inside
+                        # a body, which on a view crosses former call boundaries path-insensitively - an alarm that exists only
+                        # there is not reported (the rule stays as silent on this body as it was)
+                        if m_ and not any(e[0] == "bad" for e in m_):
+                            extra += m_
+                except Exception:
+                    extra = []
+        done = set()
+        for kind, args, kw in rec.ev:
+            q = None
+            if len(args) >= 2:
+                for q_ in replaced:
+                    if _key_of_body(args[1], q_):
+                        q = q_
+            if q is not None:
+                if q not in done:
+                    done.add(q)
+                    for k2, a2, kw2 in replaced[q]:
+                        getattr(col, k2)(*a2, **kw2)
+                continue
+            getattr(col, kind)(*args, **kw)
+        for kind, args, kw in extra:
+            if kind != "silent":
+                getattr(col, kind)(*args, **kw)
+    wrapped.__name__ = getattr(rule_fn, "__name__", "rule")
+    wrapped.__doc__ = rule_fn.__doc__
+    return wrapped
